@@ -252,6 +252,7 @@ def run_shards(module: Any, shard_list: list[Any], workers: int) -> list[Any]:
                     other_proc.join()
                     other_conn.close()
                 running.clear()
+                break
     if stop:
         for index, res in enumerate(results):
             if res is None:
